@@ -324,6 +324,10 @@ def run(ctx):
                         'force flag %s at exit' % k, 'forced sampling requested in one run survives into the next',
                         witness=d.path_to(n, s), exit=rm.exit_kind(n)))
     # and the key agrees with class_function
+    # ---- C17.g the sampling options are stored as given
+    from . import common
+    cg = res.clause('C17.g', 'R-PROV', 'sampling rate / enforced-sampling / skip options are stored as the caller gave them', floor=3)
+    common.ctor_params_clause(ctx, res, cg, 'C17', 'C17.g', 'RecordingParameters')
     return res
 
 
